@@ -223,6 +223,13 @@ impl Series1 {
             if v0 <= y_equals && v1 >= y_equals || v0 >= y_equals && v1 <= y_equals {
                 let x0 = self.x[j];
                 let x1 = self.x[j + 1];
+                if v0 == v1 {
+                    // The whole segment lies on the level (the slope below would give 0/0): both
+                    // of its ends are crossings
+                    crossings.push(x0);
+                    crossings.push(x1);
+                    continue;
+                }
                 let m = (v1 - v0) / (x1 - x0);
                 if !m.is_finite() {
                     continue;
